@@ -563,3 +563,288 @@ Qed.
 
 Lemma rect_empty_doc : Rect [].
 Proof. constructor. Qed.
+
+Lemma run_rect_empty : forall ops, Rect (run [] ops).
+Proof. intro ops. apply run_rect. exact rect_empty_doc. Qed.
+
+(* ------------------------------------------------------------------ rejected operations *)
+
+Lemma set_nth_same : forall A (l : list A) n x, nth_error l n = Some x -> set_nth n x l = l.
+Proof.
+  induction l as [|y t IH]; intros [|n] x H; simpl in *; try discriminate; auto.
+  - inversion H; auto.
+  - f_equal. apply IH; auto.
+Qed.
+
+(* operations with the strong guarantee: an exception leaves the document exactly as it was.
+   The others (init_loop / init_mmcif_loop / find_or_add validate the tags after clearing the old
+   loop; remove_rows converts pairs to a loop before checking the range) only keep it rectangular. *)
+Definition strong_guarantee (o : op) : bool :=
+  match o with
+  | OInitLoop _ _ _ _ | OInitMmcifLoop _ _ _ _ => false
+  | OTable _ (FOrAdd _ _) _ => false
+  | OTable _ _ (TRemoveRows _ _) => false
+  | _ => true
+  end.
+
+Lemma loop_apply_err : forall tags vals l,
+  l_st (loop_apply tags vals l) = SErr ->
+  l_tags (loop_apply tags vals l) = tags /\ l_vals (loop_apply tags vals l) = vals.
+Proof.
+  intros tags vals l.
+  destruct l as [|new pos|new pos| |o n|names value pos|name|cols]; cbn [loop_apply].
+  - simpl. discriminate.
+  - destruct (length new =? length tags); simpl; auto; discriminate.
+  - destruct tags as [|t0 tr]; [simpl; auto|].
+    destruct (_ =? 0); simpl; auto; discriminate.
+  - destruct (length vals <? length tags); simpl; auto; discriminate.
+  - destruct (_ && _); simpl; auto; discriminate.
+  - destruct (negb (forallb is_tag names)); simpl; auto; discriminate.
+  - destruct (find_tag tags name); simpl; auto; discriminate.
+  - destruct (loop_set_all tags vals cols); simpl; auto; discriminate.
+Qed.
+
+Lemma tab_apply_err : forall items t o,
+  (match o with TRemoveRows _ _ => false | _ => true end) = true ->
+  o_st (tab_apply items t o) = SErr -> o_items (tab_apply items t o) = items.
+Proof.
+  intros items t o Hs.
+  destruct o as [|new|s e|o n| | |n]; try discriminate Hs; cbn [tab_apply].
+  - destruct (tab_look items t); simpl; auto.
+  - destruct (negb (t_ok t)); simpl; auto.
+    destruct (negb (length new =? length (t_pos t))); simpl; auto.
+    destruct (t_loop t) as [i|]; simpl; auto.
+    destruct (nth_error items i) as [[| tags vals | |]|]; simpl; auto; discriminate.
+  - destruct (tab_length items t) as [len|]; simpl; auto.
+    destruct (at_check len o); simpl; auto.
+    destruct (at_check len n); simpl; auto.
+    destruct (tab_loop items t) as [[[i tags] vals]|]; simpl; auto; discriminate.
+  - unfold tab_ensure_loop.
+    destruct (t_loop t); [simpl; auto|].
+    destruct (t_pos t) as [|p0 pr]; [simpl; auto|].
+    destruct (ensure_go items (p0 :: pr) 0 [] [] []) as [[[[items' tags] vals] np]|]; simpl; auto.
+    discriminate.
+  - destruct (t_loop t); simpl; discriminate.
+  - destruct (_ || _); simpl; auto.
+    destruct (_ <? 0)%Z; simpl; auto.
+    destruct (t_loop t) as [i|]; simpl; try discriminate.
+    destruct (nth_error items i) as [[| tags vals | |]|]; simpl; auto.
+    destruct (_ <? length tags); simpl; auto; discriminate.
+Qed.
+
+Lemma blk_apply_err : forall items o,
+  strong_guarantee o = true -> o_st (blk_apply items o) = SErr -> o_items (blk_apply items o) = items.
+Proof.
+  intros items o Hs.
+  destruct o as [name pos|b tag value|b p tags rows|b c tags rows|b o n|b f t|b tag l|b tag
+                 |b tag|b tag|b tag|b tag|b]; try discriminate Hs; cbn [blk_apply]; auto.
+  - unfold blk_set_pair. destruct (negb (is_tag tag)); simpl; auto.
+    destruct (set_pair_go items tag (to_lower tag) value); simpl; discriminate.
+  - unfold blk_move_item.
+    destruct (_ || _); simpl; auto.
+    destruct (_ || _); simpl; auto. discriminate.
+  - destruct f as [p tags|p tags|p tags|c]; try discriminate Hs; simpl run_finder.
+    + destruct (blk_find items p tags) as [tab|]; auto.
+      apply tab_apply_err. destruct t; auto; discriminate Hs.
+    + apply tab_apply_err. destruct t; auto; discriminate Hs.
+    + destruct (blk_find_cat items c) as [tab|]; auto.
+      apply tab_apply_err. destruct t; auto; discriminate Hs.
+  - destruct (find_loop items tag) as [[i c]|]; simpl; auto.
+    destruct (nth_error items i) as [[| tags vals | |]|] eqn:E; simpl; auto.
+    intro H. apply loop_apply_err in H. destruct H as [H1 H2]. rewrite H1, H2.
+    apply set_nth_same; auto.
+  - destruct (find_values items tag) as [[i c]|]; simpl; auto.
+    destruct (nth_error items i) as [[| tags vals | |]|]; simpl; discriminate.
+  - destruct (find_values items tag) as [[i c]|]; simpl; auto.
+    destruct (nth_error items i) as [[| tags vals | |]|]; simpl; auto.
+  - destruct (get_index items tag); simpl; auto.
+Qed.
+
+Lemma block_eta : forall blk, mkBlock (bname blk) (bitems blk) = blk.
+Proof. destruct blk; reflexivity. Qed.
+
+Lemma step_err_unchanged : forall d o,
+  strong_guarantee o = true -> s_st (step d o) = SErr -> s_doc (step d o) = d.
+Proof.
+  intros d o Hs.
+  assert (HB : forall b,
+    s_st (match nth_error d b with
+          | None => mkS d SErr []
+          | Some blk => let r := blk_apply (bitems blk) o in
+              mkS (set_nth b (mkBlock (bname blk) (o_items r)) d) (o_st r) (o_out r) end) = SErr ->
+    s_doc (match nth_error d b with
+          | None => mkS d SErr []
+          | Some blk => let r := blk_apply (bitems blk) o in
+              mkS (set_nth b (mkBlock (bname blk) (o_items r)) d) (o_st r) (o_out r) end) = d).
+  { intro b. destruct (nth_error d b) as [blk|] eqn:E; simpl; auto.
+    intro H. rewrite (blk_apply_err _ _ Hs H). rewrite block_eta. apply set_nth_same; auto. }
+  unfold step.
+  destruct o as [name pos|b tag value|b p tags rows|b c tags rows|b o n|b f t|b tag l|b tag
+                 |b tag|b tag|b tag|b tag|b];
+    try (cbv beta iota; cbn [op_block]; apply HB).
+  unfold doc_add_block.
+  destruct (existsb _ d); simpl; auto.
+  destruct (_ && _); simpl; auto.
+  destruct (pos <? 0)%Z; simpl; discriminate.
+Qed.
+
+(* ------------------------------------------------------------------ lookup after edit *)
+
+Lemma iequal_spec : forall s low, iequal s low = true <-> to_lower s = low.
+Proof.
+  induction s as [|c s IH]; intros [|l low]; simpl; split; intro H; try discriminate; auto.
+  - apply andb_prop in H. destruct H as [H1 H2]. apply Z.eqb_eq in H1. apply IH in H2. subst. reflexivity.
+  - inversion H; subst. rewrite Z.eqb_refl. simpl. apply IH. reflexivity.
+Qed.
+
+Lemma iequal_to_lower : forall s, iequal s (to_lower s) = true.
+Proof. intro s. apply iequal_spec. reflexivity. Qed.
+
+(* the document after set_pair, whether the tag was found or appended *)
+Definition after_set_pair (items : list item) (tag value : str) : list item :=
+  match set_pair_go items tag (to_lower tag) value with
+  | Some r => r
+  | None => items ++ [Pair tag value]
+  end.
+
+Lemma blk_set_pair_items : forall items tag value, is_tag tag = true ->
+  o_items (blk_set_pair items tag value) = after_set_pair items tag value /\
+  o_st (blk_set_pair items tag value) = SOk.
+Proof.
+  intros items tag value Ht. unfold blk_set_pair, after_set_pair. rewrite Ht. simpl.
+  destruct (set_pair_go items tag (to_lower tag) value); simpl; auto.
+Qed.
+
+Lemma find_value_set_pair : forall items tag value,
+  find_value (after_set_pair items tag value) tag = Some value.
+Proof.
+  intros items tag value. unfold find_value, after_set_pair.
+  set (lc := to_lower tag).
+  assert (Hi : iequal tag lc = true) by (unfold lc; apply iequal_to_lower).
+  assert (G : forall its, exists i,
+    find_map_idx (pair_value lc)
+      (match set_pair_go its tag lc value with Some r => r | None => its ++ [Pair tag value] end)
+    = Some (i, value)).
+  { induction its as [|it rest IH]; simpl.
+    - rewrite Hi. eauto.
+    - match goal with |- context [if ?c then _ else _] => destruct c eqn:EH end.
+      + simpl. rewrite Hi. eauto.
+      + assert (Hn : pair_value lc it = None).
+        { destruct it as [t v| tg vl | p |]; simpl in *; auto. rewrite EH. reflexivity. }
+        destruct IH as [i Hi].
+        destruct (set_pair_go rest tag lc value) as [r|]; simpl; rewrite Hn, Hi; eauto. }
+  destruct (G items) as [i Hi]. rewrite Hi. reflexivity.
+Qed.
+
+Lemma find_map_idx_ext : forall A B (f : A -> option B) (l l' : list A),
+  Forall2 (fun a b => f a = f b) l l' -> find_map_idx f l = find_map_idx f l'.
+Proof.
+  intros A B f l l' H. induction H as [|a b l l' Hab Hl IH]; simpl; auto.
+  rewrite Hab, IH. reflexivity.
+Qed.
+
+Lemma find_map_idx_app_none : forall A B (f : A -> option B) (l : list A) x,
+  f x = None -> find_map_idx f (l ++ [x]) = find_map_idx f l.
+Proof.
+  intros A B f l x Hx. induction l as [|a l IH]; simpl.
+  - rewrite Hx. reflexivity.
+  - rewrite IH. reflexivity.
+Qed.
+
+(* When the tag is not a column of some loop (set_pair would then replace that whole loop),
+   every OTHER tag -- compared case-insensitively -- is looked up exactly as before. *)
+Lemma find_value_set_pair_other : forall items tag value tag',
+  (forall tags vals, In (Loop tags vals) items -> find_tag_lc tags (to_lower tag) = None) ->
+  to_lower tag' <> to_lower tag ->
+  find_value (after_set_pair items tag value) tag' = find_value items tag'.
+Proof.
+  intros items tag value tag' Hnl Hne. unfold find_value, after_set_pair.
+  set (lc := to_lower tag). set (lc' := to_lower tag').
+  assert (Hnew1 : pair_value lc' (Pair tag value) = None).
+  { simpl. destruct (iequal tag lc') eqn:E; auto. apply iequal_spec in E. congruence. }
+  assert (Hnew2 : one_row_value lc' (Pair tag value) = None) by reflexivity.
+  assert (G : forall its,
+    (forall tags vals, In (Loop tags vals) its -> find_tag_lc tags lc = None) ->
+    match set_pair_go its tag lc value with
+    | Some r => Forall2 (fun a b => pair_value lc' a = pair_value lc' b) r its /\
+                Forall2 (fun a b => one_row_value lc' a = one_row_value lc' b) r its
+    | None => True
+    end).
+  { induction its as [|it rest IH]; intros Hl; simpl; auto.
+    assert (Hrefl1 : forall l : list item, Forall2 (fun a b => pair_value lc' a = pair_value lc' b) l l)
+      by (induction l; constructor; auto).
+    assert (Hrefl2 : forall l : list item, Forall2 (fun a b => one_row_value lc' a = one_row_value lc' b) l l)
+      by (induction l; constructor; auto).
+    match goal with |- context [if ?c then _ else _] => destruct c eqn:EH end.
+    - destruct it as [t v| tg vl | p |]; simpl in EH; try discriminate.
+      + split; constructor; auto.
+        simpl. apply iequal_spec in EH.
+        destruct (iequal t lc') eqn:E2; [apply iequal_spec in E2; congruence|].
+        destruct (iequal tag lc') eqn:E3; [apply iequal_spec in E3; congruence|]. reflexivity.
+      + rewrite (Hl tg vl) in EH by (left; reflexivity). discriminate.
+    - specialize (IH (fun tags vals Hin => Hl tags vals (or_intror Hin))).
+      destruct (set_pair_go rest tag lc value) as [r|]; simpl; auto.
+      destruct IH as [I1 I2]. split; constructor; auto. }
+  specialize (G items Hnl).
+  destruct (set_pair_go items tag lc value) as [r|].
+  - destruct G as [G1 G2].
+    rewrite (find_map_idx_ext _ _ _ _ _ G1), (find_map_idx_ext _ _ _ _ _ G2). reflexivity.
+  - rewrite !find_map_idx_app_none; auto.
+Qed.
+
+(* row counts *)
+Lemma add_row_count : forall tags vals new pos,
+  tags <> [] -> rect_loop tags vals -> length new = length tags ->
+  l_st (loop_apply tags vals (LAddRow new pos)) = SOk /\
+  loop_length tags (l_vals (loop_apply tags vals (LAddRow new pos))) = S (loop_length tags vals).
+Proof.
+  intros tags vals new pos Hne HR Hl. cbn [loop_apply].
+  rewrite Hl, Nat.eqb_refl. simpl. split; auto.
+  assert (HR' : rect_loop tags (loop_add_values tags vals new pos)).
+  { apply add_values_rect; auto. apply rect_one_row; auto. }
+  pose proof (rect_length _ _ HR Hne) as H1.
+  pose proof (rect_length _ _ HR' Hne) as H2.
+  assert (H3 : length (loop_add_values tags vals new pos) = length vals + length new).
+  { unfold loop_add_values. destruct (_ && _).
+    - rewrite !app_length.
+      assert (length (firstn (Z.to_nat pos * length tags) vals) + length (skipn (Z.to_nat pos * length tags) vals)
+              = length vals) by (rewrite <- app_length, firstn_skipn; reflexivity). lia.
+    - rewrite app_length. lia. }
+  destruct tags as [|t0 tr]; [congruence|].
+  assert (length (t0 :: tr) > 0) by (simpl; lia). nia.
+Qed.
+
+Lemma add_row_wrong_length : forall tags vals new pos,
+  length new <> length tags ->
+  l_st (loop_apply tags vals (LAddRow new pos)) = SErr /\
+  l_vals (loop_apply tags vals (LAddRow new pos)) = vals.
+Proof.
+  intros tags vals new pos H. cbn [loop_apply].
+  apply Nat.eqb_neq in H. rewrite H. simpl. auto.
+Qed.
+
+Lemma pop_row_count : forall tags vals,
+  tags <> [] -> rect_loop tags vals -> 0 < loop_length tags vals ->
+  l_st (loop_apply tags vals LPopRow) = SOk /\
+  S (loop_length tags (l_vals (loop_apply tags vals LPopRow))) = loop_length tags vals /\
+  l_vals (loop_apply tags vals LPopRow) = firstn (length vals - length tags) vals.
+Proof.
+  intros tags vals Hne HR Hpos. cbn [loop_apply].
+  pose proof (rect_length _ _ HR Hne) as H1.
+  destruct tags as [|t0 tr]; [congruence|].
+  set (tg := t0 :: tr) in *.
+  assert (Hw : 0 < length tg) by (unfold tg; simpl; lia).
+  assert (E : length vals <? length tg = false) by (apply Nat.ltb_ge; nia).
+  rewrite E. simpl. split; auto. split; auto.
+  assert (HR' : rect_loop tg (firstn (length vals - length tg) vals)).
+  { exists (loop_length tg vals - 1). rewrite firstn_length. nia. }
+  pose proof (rect_length _ _ HR' Hne) as H2.
+  rewrite firstn_length in H2. nia.
+Qed.
+
+Lemma pop_row_empty : forall tags vals,
+  length vals < length tags ->
+  l_st (loop_apply tags vals LPopRow) = SErr /\ l_vals (loop_apply tags vals LPopRow) = vals.
+Proof.
+  intros tags vals H. cbn [loop_apply]. apply Nat.ltb_lt in H. rewrite H. simpl. auto.
+Qed.
